@@ -14,13 +14,22 @@ THEOREMS = ["GmqttVerif.Broker.lifetime_capped",
             "GmqttVerif.Broker.forwarded_interval_wire"]
 COMPS = ["broker"]
 
+import itertools, random as _random
+# stratified: configured maximum x waiting mode x the first message's expiry interval are walked through systematically
+# (90 combinations, fixed shuffled order), everything else is random — a quick run of 96 cases covers every combination,
+# in particular "no configured maximum, interval 2 s, 3.6 s offline" (seed C12-3), which pure sampling hit once in 70 cases
+_GRID = list(itertools.product([0, 3, 7200], ["online", "idle", "offline", "offline-long", "unacked", "offline-long"],
+                               [2, 5, 100, 0, 4294967295]))
+_random.Random(12).shuffle(_GRID)
+_k = [0]
+
 def gen(rng):
-    me = rng.choice([0, 3, 3, 7200])
+    me, mode, e0 = _GRID[_k[0] % len(_GRID)]
+    _k[0] += 1
     ops = [f"new mode=onlyonce me={me} se=600", "conn p cp v=5 cs=1"]
     vs = rng.choice([4, 5, 5, 5])
     ops.append(f"conn s1 cs v={vs} cs=0" + (" se=300" if vs == 5 else ""))
     ops.append(f"sub s1 1 t/#|{rng.choice([1, 1, 2, 0])}")
-    mode = rng.choice(["online", "idle", "offline", "offline", "offline-long", "unacked"])
     tag, pid = 0, 1
     def pub(e):
         nonlocal tag, pid
@@ -32,7 +41,7 @@ def gen(rng):
         ops.append(line)
         if q == 2:
             ops.append(f"rel p {pid}")
-    exps = [rng.choice([0, 2, 5, 100, 4294967295]) for _ in range(rng.choice([1, 2, 3]))]
+    exps = [e0] + [rng.choice([0, 2, 5, 100, 4294967295]) for _ in range(rng.choice([0, 1, 2]))]
     if mode == "online":
         for e in exps: pub(e)
     elif mode == "idle":
@@ -113,7 +122,7 @@ def nontrivial(ops, out):
     return any(o.startswith("sleep") for o in ops) and any(" e=" in o for o in ops)
 
 def streams(tier):
-    n = 64 if tier == "quick" else 1600
+    n = 96 if tier == "quick" else 1800
     return [(core.Stream("broker-expiry", "broker", gen, predicate, nontrivial, canon=wire.canon, keep_prefix=1, hint=wire.shared_hints, timeout=600), n)]
 
 def run(r):
